@@ -61,16 +61,74 @@ Record pclass := { c_name : string; c_fields : list pfield }.
 Definition input_flags (snake : bool) : pflags := {| f_snake := snake; f_trim := true; f_reserved := true |}.
 Definition py_name (snake : bool) (org : string) : string := l2s (process_name (input_flags snake) (s2l org)).
 
-(* one iteration of the loop in _parse_input_definition *)
-Definition gen_field (s : schema) (cs : customs) (snake : bool) (f : ifdef) : pfield :=
-  let name := py_name snake (i_name f) in
+Fixpoint find_field (k : string) (fs : list ifdef) : option ifdef :=
+  match fs with
+  | [] => None
+  | f :: r => if String.eqb k (i_name f) then Some f else find_field k r
+  end.
+
+(* `while name in used_names: name += "_"` (fix bec4417).  The loop runs at most |used| times; the fuel is
+   |used|+1 and Proofs/FreshP.v shows the result is not in `used`, i.e. the fuel is never what stops it. *)
+Fixpoint fresh (n : nat) (name : string) (used : list string) : string :=
+  match n with
+  | 0 => name
+  | S n' => if mem name used then fresh n' (name ++ "_") used else name
+  end.
+
+(* the Python names of the fields of one input type, in definition order (GraphQL name -> Python name) *)
+Fixpoint assign_names (snake : bool) (used : list string) (fs : list ifdef) : list (string * string) :=
+  match fs with
+  | [] => []
+  | f :: r =>
+      let n := fresh (S (List.length used)) (py_name snake (i_name f)) used in
+      (i_name f, n) :: assign_names snake (n :: used) r
+  end.
+
+(* definition.fields is a dict: GraphQL field names are unique, so the name of a field is found by its key *)
+Definition fname (snake : bool) (fs : list ifdef) (org : string) : string :=
+  match lookup org (assign_names snake [] fs) with Some n => n | None => py_name snake org end.
+
+(* coerce_default_value_node(node, type) (fix e1f804e): the literal is given the shape of its type — a single value
+   for a list type becomes a one-item list, an Int literal for ID a string — through object literals too *)
+Fixpoint coerce_lit (s : schema) (lit : cvalue) : gtype -> cvalue :=
+  fix go (t : gtype) : cvalue :=
+    match t with
+    | TNonNull t' => go t'
+    | TList t' =>
+        match lit with
+        | CNull => CNull
+        | CList l => CList (map (fun x => coerce_lit s x t') l)
+        | _ => CList [go t']
+        end
+    | TNamed nm =>
+        match lit with
+        | CNull => CNull
+        | CObj kv =>
+            match kind_of s nm with
+            | KInput fs =>
+                CObj (map (fun p => (fst p, match find_field (fst p) fs with
+                                            | Some f => coerce_lit s (snd p) (i_type f)
+                                            | None => snd p end)) kv)
+            | _ => lit
+            end
+        | CInt z => match kind_of s nm with KID => CStr (z_to_string z) | _ => lit end
+        | _ => lit
+        end
+    end.
+
+Definition emitted_default (s : schema) (f : ifdef) : option cvalue :=
+  option_map (fun d => coerce_lit s d (i_type f)) (i_default f).
+
+(* one iteration of the loop in _parse_input_definition; fs = all fields of the input type *)
+Definition gen_field (s : schema) (cs : customs) (snake : bool) (fs : list ifdef) (f : ifdef) : pfield :=
+  let name := fname snake fs (i_name f) in
   let '(annotation, ft) := parse_input_field_type s cs (i_type f) true in
-  let value := field_default_value (i_default f) (is_nonnull (i_type f)) (is_opt annotation) ft in
+  let value := field_default_value (emitted_default s f) (is_nonnull (i_type f)) (is_opt annotation) ft in
   {| p_name := name; p_ann := annotation;
      p_value := if String.eqb name (i_name f) then value else Some (process_field_value value (i_name f)) |}.
 
 Definition gen_class (s : schema) (cs : customs) (snake : bool) (n : string) (fs : list ifdef) : pclass :=
-  {| c_name := n; c_fields := map (gen_field s cs snake) fs |}.
+  {| c_name := n; c_fields := map (gen_field s cs snake fs) fs |}.
 
 (* _filter_input_types: input object types in type_map order *)
 Fixpoint gen_classes_of (s0 : schema) (cs : customs) (snake : bool) (s : schema) : list pclass :=
@@ -101,30 +159,26 @@ Definition used_enums (s : schema) (cs : customs) : list string :=
                                       (map (field_type_name s cs) fs)
                      | _ => [] end) s.
 
-(* ---- guard for finding F18 inside one input type: two fields sharing a Python name, or the Python
-   name of one field being the GraphQL name of another (populate_by_name would cross-read them) ---- *)
-Fixpoint names_ok_fields (snake : bool) (fs : list ifdef) : bool :=
+(* ---- what is left of finding F18 inside one input type after fix bec4417: Python names are distinct by
+   construction now; the remaining hazard is populate_by_name reading the value of ANOTHER field, i.e. the final
+   Python name of one field being the GraphQL name of a different field.  (The last conjunct, GraphQL names
+   unique, is schema validity, not a finding.) ---- *)
+Fixpoint names_ok_go (snake : bool) (all fs : list ifdef) : bool :=
   match fs with
   | [] => true
   | f :: r =>
-      forallb (fun g => negb (py_name snake (i_name f) =? py_name snake (i_name g))
-                        && negb (py_name snake (i_name f) =? i_name g)
-                        && negb (py_name snake (i_name g) =? i_name f)
+      forallb (fun g => negb (fname snake all (i_name f) =? i_name g)
+                        && negb (fname snake all (i_name g) =? i_name f)
                         && negb (i_name f =? i_name g)) r
-      && names_ok_fields snake r
+      && names_ok_go snake all r
   end.
+Definition names_ok_fields (snake : bool) (fs : list ifdef) : bool := names_ok_go snake fs fs.
 
 (* ---- construction by Python field name: the same value keyed by the generated field names ---- *)
-Fixpoint find_field (k : string) (fs : list ifdef) : option ifdef :=
-  match fs with
-  | [] => None
-  | f :: r => if String.eqb k (i_name f) then Some f else find_field k r
-  end.
-
 Definition rename_entry (ren : gtype -> json -> json) (snake : bool) (fs : list ifdef) (p : string * json)
   : string * json :=
   match find_field (fst p) fs with
-  | Some g => (py_name snake (i_name g), ren (i_type g) (snd p))
+  | Some g => (fname snake fs (i_name g), ren (i_type g) (snd p))
   | None => p
   end.
 
